@@ -240,7 +240,7 @@ func TestVerifC17VcJwt(t *testing.T) {
 						}
 					}()
 					b, _ := json.Marshal(vVcOp{Op: "consume", C: "vcld", Name: name, Class: class, HAlg: "ES256", By: by, Issuer: issuer,
-						V: map[string]interface{}{"vm": kid, "keyfound": found, "validat": true, "keyalg": "ES256", "canon": true, "parts": 2, "sigdecodes": true,
+						V: map[string]interface{}{"vm": kid, "keyfound": found, "validat": true, "keyalg": "ES256", "fits": true, "canon": true, "parts": 2, "sigdecodes": true,
 							"verified": true, "proofobj": proofObj, "nproofs": nproofs}})
 					ops.Write(b)
 					ops.WriteByte('\n')
